@@ -61,7 +61,7 @@ func genC09(rt *rapid.T) C09Case {
 		c.Notebook = genDB(rt, tierN(12, 40))
 	}
 	c.Pad = rapid.SampledFrom([]int{0, 0, 40, 300}).Draw(rt, "pad")
-	c.HistoryN = rapid.IntRange(0, 5).Draw(rt, "histn")
+	c.HistoryN = rapid.SampledFrom([]int{0, 1, 2, 3, 5, 5, 12, 30, 100, 130}).Draw(rt, "histn") // past the view default (10) and the maximum (100)
 	kind := rapid.SampledFrom([]string{"save", "save", "savepipe", "resave", "search", "search", "clear"}).Draw(rt, "kind")
 	c.Target = C08Step{Kind: kind}
 	c.Target.Command = quoteS(rapid.SampledFrom(tools).Draw(rt, "tool") + " " + genWord(rt, "w1") + " " + rapid.SampledFrom([]string{"-x", "| sort", "{{.Names}}", "# c", "x"}).Draw(rt, "tail"))
@@ -504,7 +504,7 @@ func (c *C09Case) judge(w *pworld, args []string, spec FaultSpec, tag, oldNB, ne
 		}
 	}
 	if spec.Follow || c.Only != nil {
-		if sig, msg, err := c.followUp(w, res, tag, spec); err != nil {
+		if sig, msg, err := c.followUp(w, res, tag, spec, newNB, newH); err != nil {
 			v.err = err
 			return v
 		} else if sig != "" {
@@ -523,8 +523,12 @@ func (c *C09Case) judge(w *pworld, args []string, spec FaultSpec, tag, oldNB, ne
 	return v
 }
 
-// followUp: leftovers of the faulted process must not influence later writes.
-func (c *C09Case) followUp(w *pworld, res *NodeResult, tag string, spec FaultSpec) (sig, msg string, err error) {
+// followUp: a leftover of the interrupted process must not damage later writes. A later healthy save and a
+// search are run from the disk as the faulted process left it (strays included), from the same disk with the
+// strays removed, and from that clean disk with the COMPLETE content the interrupted step was writing in place
+// (a tool may finish an interrupted save from a complete leftover; it may not build on a partial one). The
+// notebook and the history after the later steps must be what one of the two clean worlds gives.
+func (c *C09Case) followUp(w *pworld, res *NodeResult, tag string, spec FaultSpec, newNB, newH string) (sig, msg string, err error) {
 	clean := res.Disk.Clone()
 	strays := 0
 	for p := range res.Disk.Files {
@@ -540,24 +544,29 @@ func (c *C09Case) followUp(w *pworld, res *NodeResult, tag string, spec FaultSpe
 	if strays == 0 {
 		return "", "", nil
 	}
+	done := clean.Clone()
+	if newNB != "" {
+		done.WriteRaw(pNotebook, []byte(newNB), 0o644)
+	}
+	if newH != "" {
+		done.WriteRaw(pHistory, []byte(newH), 0o644)
+	}
 	steps := [][]string{{"save", "--", "zz", "s"}, {"search", "--all-platforms", "-d", pMainDB, "zz"}}
-	a := &pworld{disk: res.Disk.Clone(), clockNS: w.clockNS + int64(time.Hour)}
-	b := &pworld{disk: clean, clockNS: w.clockNS + int64(time.Hour)}
+	worlds := []*pworld{{disk: res.Disk.Clone(), clockNS: w.clockNS + int64(time.Hour)}, {disk: clean, clockNS: w.clockNS + int64(time.Hour)}, {disk: done, clockNS: w.clockNS + int64(time.Hour)}}
 	for _, args := range steps {
-		ra, e := a.run(argsOf(args...), nil, nil, tag+"a")
-		if e != nil {
-			return "", "", e
+		for wi, pw := range worlds {
+			r, e := pw.run(argsOf(args...), nil, nil, tag+string(rune('a'+wi)))
+			if e != nil {
+				return "", "", e
+			}
+			if r.Exit != "exit" {
+				return "followup-crash", fmt.Sprintf("after fault %v a later `wtf %s` crashed: %s", spec, args[0], exitDesc(r)), nil
+			}
 		}
-		rb, e := b.run(argsOf(args...), nil, nil, tag+"b")
-		if e != nil {
-			return "", "", e
-		}
-		if ra.Exit != "exit" || rb.Exit != "exit" {
-			return "followup-crash", fmt.Sprintf("after fault %v a later `wtf %s` crashed: %s / %s", spec, args[0], exitDesc(ra), exitDesc(rb)), nil
-		}
+		a, b, d := worlds[0], worlds[1], worlds[2]
 		for _, f := range []string{pNotebook, pHistory} {
-			if fileOf(a.disk, f) != fileOf(b.disk, f) {
-				return "leftover-leaks:" + spec.Kind, fmt.Sprintf("after fault %v the interrupted process left %d stray file(s); a later healthy `wtf %s` then wrote %s with %d bytes, but %d bytes when the strays are removed first: a leftover of the interrupted write leaked into the file", spec, strays, strings.Join(args, " "), f, len(fileOf(a.disk, f)), len(fileOf(b.disk, f))), nil
+			if got := fileOf(a.disk, f); got != fileOf(b.disk, f) && got != fileOf(d.disk, f) {
+				return "leftover-leaks:" + spec.Kind, fmt.Sprintf("after fault %v the interrupted process left %d stray file(s); a later healthy `wtf %s` then wrote %s with %d bytes; it has %d bytes when the strays are removed first and %d bytes when the interrupted step had completed: a partial leftover of the interrupted write leaked into the file", spec, strays, strings.Join(args, " "), f, len(got), len(fileOf(b.disk, f)), len(fileOf(d.disk, f))), nil
 			}
 		}
 	}
